@@ -352,6 +352,8 @@ class MiniTeX(object):
                     raise TeXError("missing \\endcsname inserted")
                 break
             name.append(t[1])
+            if t[1] in "{}":
+                self.stats["csname_brace"] = self.stats.get("csname_brace", 0) + 1
         name = "".join(name)
         if name not in self.eqtb:
             self.eq_define(name, RELAX)
